@@ -986,6 +986,19 @@ def special_checks():
         except Exception as e:
             bad.append(dict(case='a constant derivative cannot be differentiated / back-propagated', expression=name,
                             violated=[f'{type(e).__name__}: {e}']))
+    # same values when diff is called inside torch.no_grad() on an expression that was built with grad enabled
+    try:
+        x, t = col(0.5, -1.0, 2.0), col(0.3, 0.6, -0.9)
+        u = torch.sin(x * t) + t ** 3 * x
+        ref = [diff(u, t), diff(u, t, order=2), diff(u, t, order=3), diff(diff(u, t), x), diff(diff(u, x, order=2), t)]
+        with torch.no_grad():
+            got = [diff(u, t), diff(u, t, order=2), diff(u, t, order=3), diff(diff(u, t), x), diff(diff(u, x, order=2), t)]
+        for nm, a, b in zip(['d/dt', 'd2/dt2', 'd3/dt3', 'd2/dxdt', 'd3/dtdx2'], got, ref):
+            if not torch.allclose(a.detach(), b.detach(), rtol=0, atol=1e-12):
+                bad.append(dict(case='diff called inside torch.no_grad() on an expression built with grad enabled', derivative=nm,
+                                got=a.detach().reshape(-1).tolist(), want=b.detach().reshape(-1).tolist(), violated=['differs from the derivative']))
+    except Exception as e:
+        bad.append(dict(case='diff called inside torch.no_grad()', violated=[f'{type(e).__name__}: {e}']))
     return bad
 
 
